@@ -61,7 +61,7 @@ def run_fuzz(ctx, exe, st, tier, seed, outdir, datadir, known, pid):
             for k, s in enumerate(seeds):
                 open(os.path.join(corpus, "seed%04d" % k), "wb").write(s + st.get("seed_suffix", b"\x00"))
         env = _san_env()
-        env.update(VF_OUT=outdir, VF_STAGE=st["name"], VF_WORKER=str(i))
+        env.update(VF_OUT=outdir, VF_STAGE=st["name"], VF_WORKER=str(i), VF_DATA=datadir)
         env["ASAN_OPTIONS"] += ":detect_leaks=1"
         cmd = [exe, "-runs=%d" % runs, "-seed=%d" % _seed(seed, pid, st["name"], i), "-max_len=%d" % st.get("max_len", 400), "-len_control=20",
                "-artifact_prefix=" + wd + "/", "-print_final_stats=1", "-timeout=60", "-rss_limit_mb=3000", "-use_value_profile=1"]
@@ -81,7 +81,7 @@ def run_fuzz(ctx, exe, st, tier, seed, outdir, datadir, known, pid):
         if m:
             data["classes"]["libfuzzer-executed-units"] = int(m.group(1))
         arts = [a for a in glob.glob(os.path.join(wd, "crash-*")) + glob.glob(os.path.join(wd, "leak-*"))]
-        for a in arts[:3]:
+        for a in ([] if data["failures"] else arts[:3]):   # an oracle trap already recorded its own case
             b = open(a, "rb").read()
             if not any(f["case"] == "fuzz=x" + b.hex() for f in data["failures"]):
                 data["failures"].append(dict(cls="fuzz-crash" if "crash-" in a else "fuzz-leak", case="fuzz=x" + b.hex(),
